@@ -6,7 +6,7 @@ call ends in a drawn outcome: success, method error, init error (header and
 no-header streams), non-Stream return, header=None, mid-stream error at step k,
 client close / cancel / context-exit after k items, a log callback raising at
 its i-th invocation, unknown method, protocol-version rejection, parameter
-rejection.
+rejection (unexpected parameter, or an enum member the server does not know - version skew).
 
 Oracle (differential, model-free): every call of the history is also executed
 *alone* on a fresh connection; the trace call i produced inside the history
@@ -56,6 +56,17 @@ GHOSTS = [
 
 PROBE = MethodSpec(name="probe_u", kind="unary", ret="int")
 
+# methods the server knows, each with an enum parameter: a client whose enum has one more member (version skew)
+# sends a value the server's _deserialize_params refuses - the refusal that happens after the request was read
+# but before anything is dispatched
+ENUMS = [
+    MethodSpec(name="enum_u", kind="unary", params=[("c", "color")], ret="int"),
+    MethodSpec(name="enum_p", kind="producer", params=[("c", "color")], header=False, state_cls="PStateA"),
+    MethodSpec(name="enum_ph", kind="producer", params=[("c", "color")], header=True, state_cls="PStateB"),
+    MethodSpec(name="enum_x", kind="exchange", params=[("c", "color")], header=False, state_cls="XStateA"),
+    MethodSpec(name="enum_xh", kind="exchange", params=[("c", "color")], header=True, state_cls="XStateB"),
+]
+
 
 def probe_call(tag: int) -> Call:
     return Call(tag=tag, method="probe_u", kwargs={"tag": tag}, beh=rt.Beh(kind="unary"), label="probe")
@@ -66,7 +77,7 @@ class Bundle:
 
     def __init__(self, ch: Any, uid: str = "") -> None:
         base0 = gen_service(ch, uid=uid + "s0", version="1.2.0")
-        base = build_service(base0.methods + [PROBE], version="1.2.0", uid=uid + "s")
+        base = build_service(base0.methods + [PROBE] + ENUMS, version="1.2.0", uid=uid + "s")
         self.svc = base
         self.full = build_service(base.methods + GHOSTS, version="1.2.3", uid=uid + "f")
         self.vers = build_service(base.methods, version="2.0.0", uid=uid + "v")
@@ -76,18 +87,21 @@ class Bundle:
                             defaults={**m.defaults, "zz": "0"}, ret=m.ret, header=m.header, state_cls=m.state_cls)
             extra.append(m2)
         self.badp = build_service(extra, version="1.2.0", uid=uid + "b")
+        self.skew = build_service(base.methods, version="1.2.0", uid=uid + "k", ns_extra={"Color": rt.Color2})
 
     def client_service(self, call: Call) -> Service:
         if call.reject == "version":
             return self.vers
         if call.reject == "badparam":
             return self.badp
+        if call.reject == "badvalue":
+            return self.skew
         return self.full
 
 
 OUTCOMES = [
     "ok", "ok", "u_raise", "u_none", "init_raise", "nonstream", "nohdr", "step_raise", "nodata", "twoemit", "xfinish",
-    "close", "cancel", "ctx", "cb", "unknown", "version", "badparam",
+    "close", "cancel", "ctx", "cb", "unknown", "version", "badparam", "badvalue",
 ]
 
 
@@ -102,6 +116,11 @@ def gen_history(ch: Any, b: Bundle, n: int) -> list[Call]:
             g = GHOSTS[ch.choose(len(GHOSTS), label + ".ghost")]
             c = gen_call(ch, b.full, tag, label, method=g.name, outcome="ok", cb_raise=False, simple_exc=True)
             c.reject = "unknown"
+        elif o == "badvalue":
+            e = ENUMS[ch.choose(len(ENUMS), label + ".enum")]
+            c = gen_call(ch, svc, tag, label, method=e.name, outcome="ok", cb_raise=False, simple_exc=True)
+            c.kwargs["c"] = rt.Color2.TURBO
+            c.reject = "badvalue"
         elif o in ("version", "badparam"):
             c = gen_call(ch, svc, tag, label, outcome="ok", cb_raise=False, simple_exc=True)
             c.reject = o
@@ -194,7 +213,7 @@ def run(ctx: RunCtx) -> None:
         kind = s1.KINDS[ch.choose(len(s1.KINDS), "transport")]
         buggify = bool(ch.choose(2, "buggify"))
         b = Bundle(ch)
-        for s in (b.svc, b.full, b.vers, b.badp):
+        for s in (b.svc, b.full, b.vers, b.badp, b.skew):
             for m in s.methods:
                 world.methods[m.name] = m
         n = 2 + ch.choose(5, "history.len")
